@@ -130,3 +130,33 @@ func VerifCrashRun(script func()) {
 	script()
 }
 
+
+// VerifHookFS calls OnOpen before every Open: harnesses use it to run another operation at a chosen point inside
+// the operation under test (a schedule in which the other goroutine runs exactly there).
+type VerifHookFS struct {
+	FS
+	OnOpen func(name string, flag int)
+	OnStat func(name string)
+}
+
+func (f *VerifHookFS) Stat(name string) (FileInfo, error) {
+	if f.OnStat != nil {
+		f.OnStat(name)
+	}
+	return f.FS.Stat(name)
+}
+
+func (f *VerifHookFS) Open(name string, flag int) (File, error) {
+	if f.OnOpen != nil {
+		f.OnOpen(name, flag)
+	}
+	return f.FS.Open(name, flag)
+}
+
+func (f *VerifHookFS) Sub(name string) (FS, error) {
+	sub, err := f.FS.Sub(name)
+	if err != nil {
+		return nil, err
+	}
+	return &VerifHookFS{FS: sub, OnOpen: f.OnOpen, OnStat: f.OnStat}, nil
+}
